@@ -3,7 +3,7 @@ import ast
 import z3
 
 from . import values as V
-from .values import (Unsupported, SymArr, SymList, Obj, Range, is_z3, compare, band, bnot, fresh, arith)
+from .values import (Unsupported, SymArr, SymList, Obj, Range, OptDict, is_z3, compare, band, bnot, fresh, arith)
 from .symex import (MergeAbort, BreakSignal, ContinueSignal, PathEnd, Poison, ReturnSignal, RaiseSignal)
 
 
@@ -28,6 +28,8 @@ def exec_for(ex, st):
     if ex.guard is not True:
         raise MergeAbort("loop under guard")
     it = ex.eval(st.iter)
+    if isinstance(it, OptDict) and it.maybe and _guarded_key_loop(ex, st, it):
+        return
     items = _concrete_items(ex, it, st.lineno)
     fr = ex.frames[-1]
     if items is not None:
@@ -78,6 +80,42 @@ def exec_for(ex, st):
     return auto_nest(ex, st, it, ordinal)
 
 
+def _guarded_key_loop(ex, st, d):
+    """`for key in d` over a dict with possibly-absent keys: the body is executed once per potential key under the
+    guard `key is present` (as an if-merge), so the presence pattern needs no case split.  Returns False (state rolled
+    back) when the body cannot be merged; the caller then decides the presence of the keys by case split."""
+    if st.orelse:
+        return False
+    log = []
+    outer = ex.undo
+    ex.undo = log
+    ok = True
+    try:
+        try:
+            for k in list(d.keys()):
+                p = d.maybe.get(k, True)
+                ex.assign(st.target, k)
+                if p is True:
+                    ex.exec_block(st.body)
+                else:
+                    ex.guard = p
+                    try:
+                        ex.exec_block(st.body)
+                    finally:
+                        ex.guard = True
+        except (MergeAbort, BreakSignal, ContinueSignal):
+            ok = False
+    finally:
+        ex.guard = True
+        ex.undo = outer
+    if ok:
+        if outer is not None:
+            outer.extend(log)
+        return True
+    ex.rollback(log)
+    return False
+
+
 def concretize_int(ex, t):
     """the unique integer value of t under the path condition, or None"""
     if not is_z3(t):
@@ -105,6 +143,7 @@ def _concrete_items(ex, it, line):
     if isinstance(it, (list, tuple)):
         return list(it)
     if isinstance(it, dict):
+        ex.resolve_opt(it)
         return list(it.keys())
     if isinstance(it, SymArr) and not is_z3(it.shape[0]):
         return [ex.getitem(it, k, line) for k in range(it.shape[0])]
